@@ -222,3 +222,11 @@ Example C07_program_examples :
   evaluate (lib_table idh idh idh) c false false (flatten p2) = OTrue /\
   eval_script idh idh idh (to_ctx c) false (flatten p2) = Accept.
 Proof. cbv zeta. repeat split; vm_compute; reflexivity. Qed.
+
+(* The constants written in the model are the constants of the SOURCE: coq/Generated/SrcConsts.v is regenerated
+   from /repo/buidl/*.py by harness/gen_coq_consts.py on every run; the statements are spelled out in
+   Proofs/ConstsTie.v (timelock_is_source_stmt, op_table_domain_is_source_stmt, op_nop_codes_are_source_stmt). *)
+From V Require Proofs.ConstsTie.
+Theorem C07_constants_match_source : ConstsTie.timelock_is_source_stmt /\ ConstsTie.op_table_domain_is_source_stmt /\ ConstsTie.op_nop_codes_are_source_stmt.
+Proof. exact (conj ConstsTie.timelock_is_source (conj ConstsTie.op_table_domain_is_source ConstsTie.op_nop_codes_are_source)). Qed.
+Print Assumptions C07_constants_match_source.
